@@ -39,6 +39,8 @@ def C03(ctx):
     # (vectors of length <= 4): Apalache, symbolic
     ctx.apalache("ApaDeweyLaws", "Laws")
     ctx.apalache("ApaDeweyLaws", "AlgIsRef")
+    # ... and proved for vectors of ANY length over all integers (TLAPS, 106 obligations)
+    ctx.tlaps("OrderProofs")
     ctx.record_validate("vertriple", q(ctx, 20000, 200000), "Tr_Dewey", "Tr_Dewey.cfg", chunk=20000)
 
 
